@@ -11,6 +11,7 @@ Not decided: that every ill-scoped program reaches one of these sites.
 """
 from synq import (walk, show, show_stmts, strs, last_seg, pat_alts, pat_head, tail_expr, matches_of, mcalls, calls,
                   macros, lit_val, AnchorMissing, walk_no_closure)
+import os
 import re
 import guards
 import flow
@@ -149,6 +150,29 @@ def r4(ctx, rep):
     v = syn.fn("Resolver::validate_type", crate="prqlc")
     txt = show_stmts(v["body"], maxdepth=10)
     rep.check("is_super_type_of(expected, found)" in txt.replace("&", "") and "Err(" in show_stmts(v["body"], maxdepth=12), "validate-type", "validate_type must return Err when the found type is not a sub-type of the expected one", file=v["file"], line=v["l"], fn=v["path"])
+    # the inference of a table type for an untyped expression (meant for s-strings) must not take a call of an internal scalar function:
+    # every internal function of std.prql without a declared return type is scalar (add, neg, math.*, sum, ...)
+    ve = syn.fn("Resolver::validate_expr_type", crate="prqlc")
+    infer = [n for n in walk(ve["body"]) if n.get("k") == "if" and "is_relation()" in show(n["c"], maxdepth=8) and any(x.get("k") == "mcall" and x["m"] == "declare_table_for_literal" for x in walk(n["t"]))]
+    ok = False
+    for n in infer:
+        for x in walk(n["t"]):
+            if x.get("k") == "mcall" and x["m"] == "declare_table_for_literal":
+                break
+            c = None
+            if x.get("k") == "if":
+                cc = x["c"]
+                c, br = (show(cc["pat"]) if cc.get("k") == "macro" and cc["n"] == "matches" else show(cc["pat"]) if cc.get("k") == "let" else show(cc, maxdepth=8)), x["t"]
+            elif x.get("k") == "match" and show(x["e"]).endswith("found.kind"):
+                for arm in x["arms"]:
+                    if "RqOperator" in show(arm["pat"]):
+                        c, br = show(arm["pat"]), arm["body"]
+            if c and "RqOperator" in c and "!" not in c.split("RqOperator")[0][-12:] and any(r.get("k") == "return" and show(r.get("e"), maxdepth=3).startswith("Err(") for r in walk(br)):
+                ok = True
+    untyped_scalar = [m_.group(1) for m_ in re.finditer(r"^\s*let (\w+) = [^\n]*-> internal ", open(os.path.join(ctx.repo, "prqlc/prqlc/src/semantic/std.prql")).read(), re.M)]
+    rep.check(bool(infer) and ok, "untyped-operator-not-a-table", f"validate_expr_type infers a table type for any untyped expression where a relation is expected; {len(untyped_scalar)} internal functions of std.prql "
+              f"declare no return type ({', '.join(untyped_scalar[:6])}, ...) and all are scalar: without a rejection of `RqOperator` before the inference `from (math.abs 5)` compiles to `FROM ABS(5)`",
+              file=ve["file"], line=ve["l"], fn=ve["path"])
     t = syn.fn("Lowerer::lower_table_ref", crate="prqlc")
     ok = False
     for m in matches_of(t["body"]):
